@@ -304,6 +304,13 @@ class UTPM(Ring, RawAlgorithmsMixIn):
         # the adjoint of the overwritten entries; it is taken out of ybar BEFORE it is
         # accumulated into xbar, because x may be a view of y itself (y[0:2] = y[1:3])
         tmp = ybar[sl].copy()
+        if any(isinstance(s, (list, numpy.ndarray)) for s in (sl if isinstance(sl, tuple) else (sl,))):
+            # an index list may name an entry more than once: only the value written last is
+            # kept by the assignment, the overwritten ones get no adjoint
+            marker = numpy.empty(ybar.shape, dtype=int)
+            written = numpy.arange(marker[sl].size).reshape(marker[sl].shape)
+            marker[sl] = written
+            tmp.data[...] *= (marker[sl] == written)
         # (through the index: for an advanced index ybar[sl] is a copy)
         ybar.data[(slice(None),slice(None)) + (sl if isinstance(sl, tuple) else (sl,))] = 0.
         if not isinstance(xbar, UTPM):
